@@ -10,10 +10,11 @@
 (* instantiates numeric data from (VERIF_SEED, scenario) and runs the real *)
 (* solver under the tracer; the trace is judged by SolverTrace.            *)
 (*                                                                         *)
-(* Budgets are placed around the periods of the code: Anderson             *)
-(* extrapolation happens on the 6th call (K = 5), the inner optimality     *)
-(* check every 10 epochs; so 5,6,7 / 11,12,13 / 17,18,19 epochs end just   *)
-(* before / on / after an extrapolation.                                   *)
+(* Budgets are placed around the periods of the code: AndersonAcceleration  *)
+(* (K = 5) stores six iterates and extrapolates on its 7th call, then       *)
+(* starts over: extrapolations happen in the 7th, 14th, 21st epoch of a     *)
+(* working set; the inner optimality check runs every 10 epochs. So 6,7,8 / *)
+(* 13,14,15 / 20,21,22 epochs end just before / on / after an extrapolation.*)
 (***************************************************************************)
 EXTENDS Integers, Sequences, FiniteSets, TLC, Json
 
@@ -65,7 +66,7 @@ HasEpochs(s) == s \in {"AndersonCD", "GroupBCD", "MultiTaskBCD", "PDCD_WS"}
 
 \* ---- knob domains
 MaxIters == {0, 1, 2, 3, 8, 50}
-MaxEpochs == {1, 2, 5, 6, 7, 11, 12, 13, 17, 18, 19, 25, 200}
+MaxEpochs == {1, 2, 6, 7, 8, 11, 13, 14, 15, 20, 21, 22, 25, 200}
 P0s == {"1", "2", "10", "p", "10p"}
 Tols == {"1e-3", "1e-4", "1e-5"}
 Warms == {"none", "zero", "random", "bigsupp", "intercept_only"}
@@ -84,7 +85,7 @@ FocusPen(P) == CASE Focus = "C04" -> P \cap ConstrPen
 \* C01 is about runs that CLAIM convergence: budgets under which most runs reach their tolerance (the
 \* short budgets around the extrapolation period belong to C03 / C04 / C17)
 FocusIters == IF Focus = "C01" THEN {3, 8, 50} ELSE MaxIters
-FocusEpochs == IF Focus = "C01" THEN {7, 13, 25, 200} ELSE MaxEpochs
+FocusEpochs == IF Focus = "C01" THEN {7, 14, 25, 200} ELSE MaxEpochs
 
 VARIABLES stage, sc
 vars == <<stage, sc>>
